@@ -111,7 +111,7 @@ def stepOp (rb : Bool) (f : Forest) (ws : List String) : Option (Forest × List 
 /-! ### arena side (hook scripts) -/
 open Tbox.C11.Arena in
 structure AState where
-  σ : Arena.Store := fun _ => {}
+  σ : Arena.Store := {}
   ids : List Nat := []
 
 namespace AState
@@ -166,7 +166,8 @@ def step (g : Bool) (a : AState) (ws : List String) : Option (AState × List Str
       let n ← id? n; let c ← bool? c; let i ← bool? i; let s ← bool? s
       if !(a.σ n).alive then none
       else
-        let σ' := a.σ.set n { a.σ n with cfg := c, initOk := i, startOk := s }
+        let x := a.σ.get n
+        let σ' := a.σ.set n { x with cfg := c, initOk := i, startOk := s }
         pure ({ a with σ := σ' }, resLine a (Res.ok σ' true []), false)
   | "hook" :: n :: h :: rest => do
       let n ← id? n; let h ← hook? h; let acts ← acts? rest
